@@ -18,6 +18,7 @@ pub mod c13;
 pub mod c14;
 pub mod c15;
 pub mod c16;
+pub mod c17;
 pub mod common;
 
 pub struct PropMeta {
@@ -56,6 +57,7 @@ pub fn get(id: &str) -> Option<Box<dyn Prop>> {
         "C14" => Box::new(c14::C14),
         "C15" => Box::new(c15::C15),
         "C16" => Box::new(c16::C16),
+        "C17" => Box::new(c17::C17),
         _ => return None,
     })
 }
